@@ -1,7 +1,7 @@
 (* C10 — nsqd HTTP API: validation, status codes and equivalence with TCP publish.
    Property theorems only (proofs in proofs/HttpProofs.v; model in model/Http.v). *)
 From Coq Require Import String List NArith ZArith Bool.
-From NSQV Require Import model.Judge model.Names model.Num model.Http gen.NsqdRoutes proofs.HttpProofs.
+From NSQV Require Import model.Judge model.Names model.Num model.Http gen.NsqdRoutes proofs.HttpProofs proofs.HttpArgProofs.
 Import ListNotations.
 Close Scope string_scope.
 Open Scope Z_scope.
@@ -129,6 +129,55 @@ Theorem C10_pub_bad_defer_400 : forall c st r ps name ds body,
   serve c st r = (Resp 400 (str "INVALID_DEFER"), [ECreateTopic name]).
 Proof. exact pub_bad_defer_400. Qed.
 Print Assumptions C10_pub_bad_defer_400.
+
+(* the table read the other way round - "400 for bad or missing arguments, 404 for an unknown
+   topic/channel" AND ONLY for those: whatever error token is answered, to any request in
+   any state, is true of that request ([token_justified]: INVALID_TOPIC / INVALID_ARG_TOPIC
+   / INVALID_ARG_CHANNEL => the argument is present and is not a valid name (1..64 bytes
+   incl. an optional #ephemeral); MISSING_ARG_* => absent; TOPIC_/CHANNEL_NOT_FOUND => not
+   in the state; INVALID_DEFER => not a number of ms in [0, max-req-timeout];
+   INVALID_REQUEST => unparsable query or unreadable body; INVALID_OPTION / INVALID_VALUE =>
+   an option /config does not know or can not set, an empty / oversize / unacceptable value;
+   "invalid block rate" => rate is not a number), and any other token is one of the API's
+   (closed world, [other_tokens]) *)
+Theorem C10_error_tokens_justified : forall c st r, 0 <= max_msg c -> 0 <= max_req c < max_i64 ->
+  match fst (serve c st r) with
+  | Resp s tok => token_justified c st r tok = true
+  | Pass => True
+  end.
+Proof. exact error_tokens_justified. Qed.
+Print Assumptions C10_error_tokens_justified.
+
+(* in particular a valid name - at every length from 1 to 64 - is never refused as invalid or missing *)
+Theorem C10_valid_names_not_refused : forall c st r ps t s tok,
+  0 <= max_msg c -> 0 <= max_req c < max_i64 -> r_query r = QOk ps -> qget k_topic ps = Some t -> is_valid_name t = true ->
+  fst (serve c st r) = Resp s tok ->
+  tok <> str "INVALID_TOPIC" /\ tok <> str "INVALID_ARG_TOPIC" /\ tok <> str "MISSING_ARG_TOPIC" /\
+  (forall ch, qget k_channel ps = Some ch -> is_valid_name ch = true ->
+     tok <> str "INVALID_ARG_CHANNEL" /\ tok <> str "MISSING_ARG_CHANNEL").
+Proof. exact valid_names_not_refused. Qed.
+Print Assumptions C10_valid_names_not_refused.
+
+(* the ten admin endpoints: a well-formed POST is answered 200 EXACTLY when the documented
+   precondition holds of its (first) topic / channel argument *)
+Theorem C10_admin_precondition : forall c st r p op ps,
+  tls_gate c = false -> healthy_env c -> In (p, op) admin_paths ->
+  r_method r = MPost -> r_path r = str p -> r_query r = QOk ps -> r_body_err r = false ->
+  exists b : bool, admin_precondition (str p) st (qget k_topic ps) (qget k_channel ps) = Some b /\
+    exists s tok, fst (serve c st r) = Resp s tok /\ (s = 200 <-> b = true).
+Proof. exact admin_precondition_exact. Qed.
+Print Assumptions C10_admin_precondition.
+
+(* a /pub within every documented limit (valid topic, 1..max-msg-size bytes, no or an
+   in-range defer) is accepted and enqueues exactly its body *)
+Theorem C10_pub_valid_accepted : forall c st r ps name body,
+  tls_gate c = false -> env_exiting c = false -> 0 <= max_msg c -> 0 <= max_req c < max_i64 ->
+  r_method r = MPost -> r_path r = str "/pub" -> r_query r = QOk ps -> complete_body r body ->
+  1 <= blen body <= max_msg c -> qget k_topic ps = Some name -> is_valid_name name = true ->
+  match qget k_defer ps with Some ds => defer_documented c ds = true | None => True end ->
+  exists d, serve c st r = (Resp 200 OKb, [ECreateTopic name; EEnqueue name [body] d]).
+Proof. exact pub_valid_accepted. Qed.
+Print Assumptions C10_pub_valid_accepted.
 
 Theorem C10_wrong_method_405 : forall m p, In p static_paths -> find_route m p = None ->
   match route_request m p with
@@ -347,3 +396,30 @@ Example C10_ex_router :
   = [Resp 405 (str "METHOD_NOT_ALLOWED"); Resp 200 []; Resp 307 []; Resp 301 []; Resp 404 (str "NOT_FOUND");
      Resp 405 (str "METHOD_NOT_ALLOWED")].
 Proof. vm_compute. reflexivity. Qed.
+
+(* the name-length boundary: 63 and 64 bytes (also 54 + #ephemeral) are accepted by every
+   endpoint, 65 (55 + #ephemeral) is 400 *)
+Definition name_of (n : nat) : bytes := repeat 98%N n.
+Definition eph_of (n : nat) : bytes := (repeat 100%N n ++ str "#ephemeral")%list.
+Example C10_ex_name_boundary :
+  map (fun t => fst (serve ex_cfg [] (ex_req MPost "/topic/create" [(str "topic", t)] [])))
+      [name_of 1; name_of 63; name_of 64; name_of 65; eph_of 53; eph_of 54; eph_of 55]
+  = [Resp 200 []; Resp 200 []; Resp 200 []; Resp 400 (str "INVALID_TOPIC");
+     Resp 200 []; Resp 200 []; Resp 400 (str "INVALID_TOPIC")] /\
+  map (fun t => fst (serve ex_cfg [] (ex_req MPost "/pub" [(str "topic", t)] (str "x"))))
+      [name_of 64; name_of 65; eph_of 54; eph_of 55]
+  = [Resp 200 OKb; Resp 400 (str "INVALID_TOPIC"); Resp 200 OKb; Resp 400 (str "INVALID_TOPIC")] /\
+  map (fun ch => fst (serve ex_cfg ex_state (ex_req MPost "/channel/create" [(str "topic", str "a"); (str "channel", ch)] [])))
+      [name_of 64; name_of 65; eph_of 54; eph_of 55]
+  = [Resp 200 []; Resp 400 (str "INVALID_ARG_CHANNEL"); Resp 200 []; Resp 400 (str "INVALID_ARG_CHANNEL")] /\
+  map (fun t => tcp_pub ex_cfg t 1 (str "x")) [name_of 64; name_of 65]
+  = [TcpOk [ECreateTopic (name_of 64); EEnqueue (name_of 64) [str "x"] 0]; TcpErr E_BAD_TOPIC []].
+Proof. vm_compute. repeat split; reflexivity. Qed.
+(* the hypotheses of C10_admin_precondition / C10_pub_valid_accepted are satisfiable *)
+Example C10_ex_precondition :
+  admin_precondition (str "/channel/delete") ex_state (Some (str "a")) (Some (str "c1")) = Some true /\
+  admin_precondition (str "/channel/delete") ex_state (Some (str "a")) (Some (str "zz")) = Some false /\
+  admin_precondition (str "/topic/create") ex_state (Some (name_of 64)) None = Some true /\
+  admin_precondition (str "/topic/create") ex_state (Some (name_of 65)) None = Some false /\
+  defer_documented ex_cfg (str "3600000") = true /\ defer_documented ex_cfg (str "3600001") = false.
+Proof. vm_compute. repeat split; reflexivity. Qed.
